@@ -25,6 +25,8 @@ Proof.
   - apply listen_end_inv; auto.
   - apply sess_start_inv; auto.
   - apply sess_req_inv; auto.
+  - apply sess_req_begin_inv; auto.
+  - apply sess_req_store_inv; auto.
   - apply sess_iter_inv; auto.
   - apply sess_end_inv; auto.
 Qed.
@@ -86,6 +88,17 @@ Theorem stored_with_epoch_run l c seq m d :
   mb_recv (sbox (step (run l) (SessReq c seq (RSend m))) d) = Some m /\
   mb_gep (sbox (step (run l) (SessReq c seq (RSend m))) d) = seq.
 Proof. intros Ha Hd. destruct (send_routing_run l c seq m d Ha Hd) as (_ & _ & X & _ & _ & _ & _ & Y & Z). auto. Qed.
+
+(* the same for the finer LTS in which verification (SessReqBegin) and the store
+   region (SessReqStore) are separate actions with anything in between *)
+Theorem store_routing_run l c seq m d :
+  alive (sc_st (scalls (run l) c)) = true -> spend (run l) c = Some (seq, RSend m) ->
+  sbox (step (run l) (SessReqStore c)) d <> sbox (run l) d ->
+  m_ver m = true /\ m_from m = sc_src (scalls (run l) c) /\ seq = epoch_of (run l) c /\
+  side (ses (run l) (sc_s (scalls (run l) c))) (negb (sc_isA (scalls (run l) c))) = Some d /\
+  mb_recv (sbox (step (run l) (SessReqStore c)) d) = Some m /\
+  mb_gep (sbox (step (run l) (SessReqStore c)) d) = seq.
+Proof. intros Ha Hp. cbn [step]. apply store_routing; auto. apply run_inv. Qed.
 
 (* ---- C24 ---- *)
 Theorem listener_set_run l c :
